@@ -58,6 +58,7 @@ func (cr *concRun) analyse(out *ConcOutcome) {
 	cr.checkConcIter()
 	cr.checkRejectedLoads()
 	cr.checkBulkResults()
+	cr.checkProducerOrder()
 	cr.countOverlaps(out)
 	if cr.opts.Lin {
 		cr.checkLin(out)
